@@ -29,8 +29,17 @@ type Val struct {
 }
 
 type blockState struct {
-	heap  *Heap
-	guard string
+	heap   *Heap
+	guard  string
+	ghosts map[string]TV // ghost variables are path-sensitive state, merged like SSA phis
+}
+
+func cloneGhosts(g map[string]TV) map[string]TV {
+	n := make(map[string]TV, len(g))
+	for k, v := range g {
+		n[k] = v
+	}
+	return n
 }
 
 type autoInv struct {
@@ -59,11 +68,12 @@ type Exec struct {
 	pass   int
 	entry  *Heap
 	params map[string]TV
-	ghosts map[string]TV
+	entryGhosts map[string]TV
 	callOrd map[string]int
 	callIdxOf map[ssa.Instruction]int // ordinal of call per callee name in source order
 	preLoops map[*ssa.BasicBlock]*loopInfo
 	tiDone map[string]bool
+	tiRelevant map[int]bool
 	roCells map[*ssa.Alloc]ssa.Value
 	roStored map[*ssa.Alloc]bool
 	frameActive bool
@@ -1342,8 +1352,10 @@ func (ex *Exec) specEnv(h *Heap) *SpecEnv {
 	for k, v := range ex.params {
 		vars[k] = v
 	}
-	for k, v := range ex.ghosts {
-		vars[k] = v
+	if ex.cur != nil {
+		for k, v := range ex.cur.ghosts {
+			vars[k] = v
+		}
 	}
 	return &SpecEnv{vc: ex.vc, vars: vars, params: ex.params, heap: h, old: ex.entry}
 }
@@ -1353,7 +1365,6 @@ func (ex *Exec) run() {
 	fn := ex.fn
 	ex.vals = map[ssa.Value]*Val{}
 	ex.out = map[*ssa.BasicBlock]*blockState{}
-	ex.ghosts = map[string]TV{}
 	ex.callOrd = map[string]int{}
 	ex.abstractedGuards = nil
 	ex.hasDefer = false
@@ -1394,6 +1405,18 @@ func (ex *Exec) run() {
 		vc.assume(t)
 	}
 	ex.cur = &blockState{heap: h0, guard: "true"}
+	ex.entryGhosts = map[string]TV{}
+	for _, c := range vc.fc.Clauses {
+		if c.Kind == "ghost" && c.When == "entry" {
+			tv, err := env0.Any(c.Expr)
+			if err != nil {
+				vc.ctx.contractError(vc.fc, c, err)
+				continue
+			}
+			tv = env0.defaultType(tv)
+			ex.entryGhosts[c.Name] = tv
+		}
+	}
 	for name, tv := range ex.params {
 		_ = name
 		ex.assumeTypeInv(tv.T, tv.Ty)
@@ -1419,7 +1442,7 @@ func (ex *Exec) block(b *ssa.BasicBlock) {
 	ex.curBlk = b
 	var st *blockState
 	if b.Index == 0 {
-		st = &blockState{heap: ex.entry.clone(), guard: "true"}
+		st = &blockState{heap: ex.entry.clone(), guard: "true", ghosts: cloneGhosts(ex.entryGhosts)}
 	} else {
 		// forward predecessors
 		var hs []*Heap
@@ -1449,7 +1472,7 @@ func (ex *Exec) block(b *ssa.BasicBlock) {
 			guard = "(or " + strings.Join(gs, " ") + ")"
 		}
 		guard = vc.define(fmt.Sprintf("g%d", b.Index), sBool, guard)
-		st = &blockState{heap: vc.mergeHeaps(hs, gs), guard: guard}
+		st = &blockState{heap: vc.mergeHeaps(hs, gs), guard: guard, ghosts: ex.mergeGhosts(b, pidx, gs)}
 		loop := ex.loops[b]
 		// phis
 		for _, in := range b.Instrs {
@@ -1498,6 +1521,50 @@ func (ex *Exec) block(b *ssa.BasicBlock) {
 			}
 		}
 	}
+}
+
+func (ex *Exec) mergeGhosts(b *ssa.BasicBlock, pidx []int, gs []string) map[string]TV {
+	vc := ex.vc
+	out := map[string]TV{}
+	names := map[string]bool{}
+	for _, pi := range pidx {
+		if st := ex.out[b.Preds[pi]]; st != nil {
+			for k := range st.ghosts {
+				names[k] = true
+			}
+		}
+	}
+	for name := range names {
+		var vals []TV
+		ok := true
+		for _, pi := range pidx {
+			v, has := ex.out[b.Preds[pi]].ghosts[name]
+			if !has {
+				ok = false
+				break
+			}
+			vals = append(vals, v)
+		}
+		if !ok {
+			continue
+		}
+		same := true
+		for _, v := range vals {
+			if v.T != vals[0].T {
+				same = false
+			}
+		}
+		if same {
+			out[name] = vals[0]
+			continue
+		}
+		t := vals[len(vals)-1].T
+		for k := len(vals) - 2; k >= 0; k-- {
+			t = fmt.Sprintf("(ite %s %s %s)", gs[k], vals[k].T, t)
+		}
+		out[name] = TV{T: vc.define("ghost."+name, vc.sortOf(vals[0].Ty), t), Ty: vals[0].Ty}
+	}
+	return out
 }
 
 func (ex *Exec) mergePhi(phi *ssa.Phi, pidx []int, gs []string) *Val {
@@ -1677,7 +1744,7 @@ func (ex *Exec) loopHead(b *ssa.BasicBlock, l *loopInfo, pidx []int, gs []string
 		vc.assume(fmt.Sprintf("(>= %s %s)", a, st.heap.alloc))
 		nh.alloc = a
 	}
-	st = &blockState{heap: nh, guard: st.guard}
+	st = &blockState{heap: nh, guard: st.guard, ghosts: st.ghosts}
 	ex.cur = st
 	for _, in := range b.Instrs {
 		phi, ok := in.(*ssa.Phi)
@@ -1856,6 +1923,7 @@ func (ex *Exec) resultNames() []string {
 }
 
 type retInfo struct {
+	ghosts map[string]TV
 	guard string
 	heap  *Heap
 	vals  []*Val
@@ -1863,7 +1931,7 @@ type retInfo struct {
 }
 
 func (ex *Exec) ret(r *ssa.Return) {
-	ri := retInfo{guard: ex.cur.guard, heap: ex.cur.heap, pos: r.Pos()}
+	ri := retInfo{guard: ex.cur.guard, heap: ex.cur.heap, pos: r.Pos(), ghosts: ex.cur.ghosts}
 	for _, rv := range r.Results {
 		ri.vals = append(ri.vals, ex.val(rv))
 	}
@@ -1889,7 +1957,38 @@ func (ex *Exec) exit() {
 	}
 	g = vc.define("g.exit", sBool, g)
 	h := vc.mergeHeaps(hs, gs)
-	ex.cur = &blockState{heap: h, guard: g}
+	eg := map[string]TV{}
+	{
+		names := map[string]bool{}
+		for _, r := range ex.rets {
+			for k := range r.ghosts {
+				names[k] = true
+			}
+		}
+		for name := range names {
+			var vals []TV
+			ok := true
+			for _, r := range ex.rets {
+				v, has := r.ghosts[name]
+				if !has {
+					ok = false
+					break
+				}
+				vals = append(vals, v)
+			}
+			if !ok {
+				continue
+			}
+			t := vals[len(vals)-1].T
+			for k := len(vals) - 2; k >= 0; k-- {
+				if vals[k].T != t {
+					t = fmt.Sprintf("(ite %s %s %s)", gs[k], vals[k].T, t)
+				}
+			}
+			eg[name] = TV{T: vc.define("ghost."+name, vc.sortOf(vals[0].Ty), t), Ty: vals[0].Ty}
+		}
+	}
+	ex.cur = &blockState{heap: h, guard: g, ghosts: eg}
 	env := ex.specEnv(h)
 	res := ex.fn.Signature.Results()
 	for i := 0; i < res.Len(); i++ {
@@ -2117,8 +2216,11 @@ func (ex *Exec) assumeTypeInv(term string, t types.Type) {
 	if !ok || n.Obj().Pkg() != ex.vc.ctx.tpkg {
 		return
 	}
-	for _, ti := range ex.vc.ctx.cf.TypeInvs {
+	for tix, ti := range ex.vc.ctx.cf.TypeInvs {
 		if ti.Type != n.Obj().Name() || ti.Stable {
+			continue
+		}
+		if !ex.relevantTI(tix) {
 			continue
 		}
 		owner := false
@@ -2147,4 +2249,49 @@ func (ex *Exec) assumeTypeInv(term string, t types.Type) {
 		ex.vc.assume(fmt.Sprintf("(=> (and %s (not (= %s 0))) %s)", ex.cur.guard, term, b))
 		ex.vc.usedTypeInvs[ti.Type] = true
 	}
+}
+
+// relevantTI: a type invariant is assumed only in functions that can use it:
+// they read one of its fields, or call a function whose contract restates it.
+func (ex *Exec) relevantTI(tix int) bool {
+	if ex.tiRelevant == nil {
+		ex.tiRelevant = map[int]bool{}
+		callsInvUser := false
+		for _, b := range ex.fn.Blocks {
+			for _, in := range b.Instrs {
+				switch i := in.(type) {
+				case *ssa.FieldAddr:
+					T, f, ok := fieldOfLoad(i)
+					if !ok {
+						continue
+					}
+					for k, ti := range ex.vc.ctx.cf.TypeInvs {
+						if ti.Type == T {
+							for _, tf := range ti.Fields {
+								if tf == f {
+									ex.tiRelevant[k] = true
+								}
+							}
+						}
+					}
+				case *ssa.Call:
+					if cal := i.Call.StaticCallee(); cal != nil {
+						if fc := ex.vc.ctx.cf.Funcs[cal.RelString(ex.vc.ctx.tpkg)]; fc != nil {
+							for _, c := range fc.clauses("requires") {
+								if c.TypeInv || strings.Contains(c.Expr, "wfs(") {
+									callsInvUser = true
+								}
+							}
+						}
+					}
+				}
+			}
+		}
+		if callsInvUser {
+			for k := range ex.vc.ctx.cf.TypeInvs {
+				ex.tiRelevant[k] = true
+			}
+		}
+	}
+	return ex.tiRelevant[tix]
 }
